@@ -293,6 +293,39 @@ theorem C07_map_range_ok_partial {K V : Type} [DecidableEq K] (p : Model.Proto.P
     refine C07_complete p hmin u s0 s1 sts π h0 hpc htr hret hdep hres k i (fun σ hσ => ?_)
     exact hall _ (List.mem_map.mpr ⟨σ, hσ, rfl⟩)
 
+theorem nodup_of_map {α β : Type} (f : α → β) (l : List α) (h : (l.map f).Nodup) : l.Nodup := by
+  induction l with
+  | nil => exact List.nodup_nil
+  | cons a l ih =>
+    rw [List.map_cons, List.nodup_cons] at h
+    exact List.nodup_cons.mpr ⟨fun ha => h.1 (List.mem_map_of_mem ha), ih h.2⟩
+
+/-- **with no concurrent writer the traversal is exact - also while the table grows or shrinks**: if the content of the
+current table is the same in every state of the window (other threads may read, traverse and resize; no `Clear`
+publishes), the pairs handed over are exactly the entries of the map, each once -/
+theorem C07_exact_when_unmodified {K V : Type} [DecidableEq K] (p : Model.Proto.Params K) (hmin : 0 < p.minLen)
+    (u : Model.Proto.Tid) (s0 s1 : Model.Proto.St K V) (sts : List (Model.Proto.St K V)) (π : List (K × V))
+    (h0 : Model.Proto.Reach p s0) (hpc : (s0.l u).pc = .rgTable)
+    (htr : Proofs.ProtoRange.Trav p u (s0.l u).frames.length s0 sts s1)
+    (hncs : ∀ σ ∈ sts, Proofs.ProtoRange.NoClearPublish σ)
+    (hret : (s1.l u).pc = .ret) (hdep : (s1.l u).frames.length = (s0.l u).frames.length)
+    (hres : (s1.l u).result = some (.visits π))
+    (hconst : ∀ σ ∈ sts, ∀ k, Proofs.ProtoData.absGet σ.g k = Proofs.ProtoData.absGet s0.g k) :
+    π.Perm (s0.g.tables s0.g.cur).data := by
+  have hwf : AMap.WF (s0.g.tables s0.g.cur).data := (Proofs.ProtoData.dinv_reach p hmin s0 h0).gd.wf _
+  have honce := C07_result_once p hmin s1 (trav_reach htr h0) u π hres
+  refine (List.perm_ext_iff_of_nodup (nodup_of_map _ _ honce) (nodup_of_map _ _ hwf)).mpr ?_
+  intro e
+  constructor
+  · intro he
+    obtain ⟨σ, hσ, h⟩ := C07_real_partial p hmin u s0 s1 sts π h0 hpc htr hncs hret hdep hres e he
+    rw [hconst σ hσ] at h
+    exact AMap.mem_of_get _ _ _ h
+  · intro he
+    have hget : Proofs.ProtoData.absGet s0.g e.1 = some e.2 := AMap.get_of_mem _ hwf e.1 e.2 he
+    exact C07_complete p hmin u s0 s1 sts π h0 hpc htr hret hdep hres e.1 e.2
+      (fun σ hσ => by rw [hconst σ hσ]; exact hget)
+
 /-! #### non-vacuity: a concrete window.  Thread 0 has stored `1 ↦ 5`; thread 1 runs `Range` while thread 0 stores
 `2 ↦ 7`; the window meets every hypothesis above and the call returns both pairs. -/
 section example_window
